@@ -826,6 +826,21 @@ def perm_specs():
     return out
 
 
+def lex_specs():
+    """a file whose ids are in LEXICOGRAPHIC order (`T - 1`, `T - 10`, `T - 11`, `T - 2`, … - what `sort` or an editor
+    leaves) but not in natural order: with Sort, Clean must put it into natural order (a byte-wise "is it sorted"
+    shortcut takes it for sorted)"""
+    out = []
+    n = 12
+    ids = sorted(b'TestLex - %d' % k for k in range(1, n + 1))
+    for mode, srt in (((False, ''), '1'), ((False, 'clean'), '1'), ((False, 'true'), '1'), ((False, ''), '-')):
+        for stale in ([], [(1, b'TestGone - 1', b'stale')]):
+            out.append(dict(cfgs=[cfg_line(1, 'snaps')], nfiles=1, tests=[(b'TestLex', [(1, b'value %d' % k) for k in range(1, n + 1)])],
+                            stale=stale, count=1, shuffle=1, stale_files=[], decoys=False, mode=mode, sort=srt, flags=set(),
+                            order={1: ids + [s_[1] for s_ in stale]}))
+    return out
+
+
 def eol_specs():
     """files whose recognised entries take fewer bytes than the file: CR LF / mixed line endings,
     or extra lines between the entries; unsorted (shuffle seeds chosen so), with and without a
